@@ -38,6 +38,11 @@ type Solver struct {
 	timeout int // ms per query
 	dead    bool
 	dump    io.Writer
+	// portfolio: queries the primary z3 leaves unknown go to the other installed
+	// solvers (started on first use) before z3 gets its full timeout
+	fallback   []*Solver
+	noFallback bool
+	Fallbacks  map[string]int // queries decided by a fallback solver, per solver
 }
 
 func solverArgs(kind string, timeoutMs int) (string, []string) {
@@ -107,6 +112,10 @@ func (s *Solver) Close() {
 	if s == nil || s.cmd == nil {
 		return
 	}
+	for _, f := range s.fallback {
+		f.Close()
+	}
+	s.fallback = nil
 	s.in.Close()
 	done := make(chan struct{})
 	go func() { s.cmd.Wait(); close(done) }()
@@ -156,6 +165,54 @@ func (s *Solver) Check(asserts []*Term, want []*Term) (Verdict, []uint64, string
 		return v, vals, errs
 	}
 	s.Retries++
+	if s.name != "z3" || s.noFallback {
+		return s.check1(asserts, want, true, s.timeout)
+	}
+	// fresh context, short: most retried queries are decided here in milliseconds
+	short := 2000
+	if s.timeout < short {
+		short = s.timeout
+	}
+	v, vals, errs = s.check1(asserts, want, true, short)
+	if v != Unknown || s.dead {
+		return v, vals, errs
+	}
+	// the other solvers (a query that costs z3 4.8.12 more than 20 s can take
+	// z3 5.1 half a second and cvc5 50 ms); their answers count like z3's - the
+	// thorough tier re-decides every obligation with all three anyway
+	if s.fallback == nil {
+		for _, k := range []string{"z3-new", "cvc5"} {
+			if f, err := NewSolver(k, s.timeout); err == nil {
+				f.noFallback = true
+				s.fallback = append(s.fallback, f)
+			}
+		}
+		if s.fallback == nil {
+			s.fallback = []*Solver{}
+		}
+	}
+	for _, f := range s.fallback {
+		if f.dead {
+			continue
+		}
+		var fv Verdict
+		var fvals []uint64
+		if f.name == "cvc5" {
+			fv, fvals, _ = f.check1(asserts, want, false, 0)
+		} else {
+			fv, fvals, _ = f.check1(asserts, want, true, s.timeout)
+		}
+		if fv != Unknown {
+			if s.Fallbacks == nil {
+				s.Fallbacks = map[string]int{}
+			}
+			s.Fallbacks[f.name]++
+			return fv, fvals, ""
+		}
+	}
+	if s.timeout <= short {
+		return Unknown, nil, errs
+	}
 	return s.check1(asserts, want, true, s.timeout)
 }
 
